@@ -44,6 +44,11 @@ def run(ctx):
                           dict(kind=r['kind'], seed=r['seed'], opts=r['opts'], detail=r['history'], describe=r['describe']))
         ctx.count('history-checked', r.get('history_checked', 0))
         if r['status'] != 'ok':
+            if r.get('inter_structs') and r.get('sym') is not None:
+                for s_ in r['inter_structs']:
+                    wf_jobs.append((OP_WF, [sym_index(info, r['sym']), s_]))
+                    wf_src.append((r['kind'], r['seed'], 'intermediate'))
+                    ctx.count('wf:intermediate')
             continue
         if r.get('consistent') is False or r.get('inter_consistent') is False:
             ctx.violation('%s case seed %d: is_consistent() fails on a produced tensor' % (r['kind'], r['seed']), dict(kind=r['kind'], seed=r['seed'], describe=r['describe']))
